@@ -1,14 +1,18 @@
 #!/bin/bash
-# usage: try_mutant.sh <seeded id> <check ids...> : applies the seeded patch to /repo, runs the quick checks, reverts.
+# usage: try_mutant.sh <seeded id> <check ids...> : runs the quick checks against a scratch worktree of /repo HEAD with the
+# seeded patch applied (VERIF_REPO), so that nothing else running against /repo is disturbed.  Equivalent to
+# `git -C /repo apply patch; ./check ..; git -C /repo checkout -- .` (the cache key is the tree content).
 id=$1; shift
+wt=/tmp/try_$id
+git -C /repo worktree remove --force $wt >/dev/null 2>&1; git -C /repo worktree prune
+git -C /repo worktree add $wt HEAD >/dev/null 2>&1 || { echo "worktree failed"; exit 2; }
+git -C $wt apply /verif/seeded/$id/patch.diff || { echo "patch does not apply"; git -C /repo worktree remove --force $wt; exit 2; }
 cd /verif
-git -C /repo apply /verif/seeded/$id/patch.diff || { echo "patch does not apply"; exit 2; }
 for c in "$@"; do
-  out=$(./check $c 2>&1); rc=$?
+  out=$(VERIF_REPO=$wt VERIF_NO_EVIDENCE=1 python3 -m vlib.cli check $c --tier ${TIER:-quick} 2>&1); rc=$?
   nv=$(echo "$out" | grep -c "^VIOLATION")
   echo "== $id vs $c: exit=$rc violations_printed=$nv"
-  echo "$(date -u +%FT%TZ) verif=$(git -C /verif rev-parse --short HEAD) check=$c tier=quick exit=$rc violation_lines=$nv first_signature=$(echo "$out" | grep -m1 'signature:' | cut -c14-160)" >> /verif/seeded/$id/detection.txt
+  echo "$(date -u +%FT%TZ) verif=$(git -C /verif rev-parse --short HEAD) check=$c tier=${TIER:-quick} exit=$rc violation_lines=$nv first_signature=$(echo "$out" | grep -m1 'signature:' | cut -c14-160)" >> /verif/seeded/$id/detection.txt
   echo "$out" | grep -A2 "^VIOLATION" | head -8 | cut -c1-300
 done
-git -C /repo checkout -- .
-git -C /repo status --short | grep -v _build
+git -C /repo worktree remove --force $wt; git -C /repo worktree prune
